@@ -12,18 +12,21 @@ from vlib import unitmodel as um
 from vlib.harness import Sub
 
 PROPERTY = "C18"
-RULE = ("normals: largest component 10^[-60,60] with sign, the other components in {0, +-same, +-(1+-1e-12) same, "
-        "relative 10^[-300,0]} (axis-aligned, z = 0, x+y = 0 exact and near, tiny and denormal components), int or float "
-        "data, optional length unit; axis letters and all 6 triples in every upper/lower-case combination "
+RULE = ("normals: largest component 10^[-300,300] with sign, the other components in {0, +-same, +-(1+-1e-12) same, "
+        "relative 10^[-300,0]} (axis-aligned, z = 0, x+y = 0 exact and near, tiny and denormal components), python float / "
+        "int (to 9e18) or numpy float32 / int32 / uint8 components, 0-d or shape (1,), optional length unit; axis letters and all 6 triples in every upper/lower-case combination "
         "(exhaustive); user VectorBasis built from mutually perpendicular vectors of arbitrary lengths and units; "
-        "'top'/'side' with generated clouds of 5-40 cells (positions, velocities, masses, origin, window in mixed "
-        "units) with net angular momentum >= 1e-3 of sum m|r||v|.  Oracle on (n,u,v) = get_direction(...): unit length "
+        "'top'/'side' with generated clouds of 5-40 cells (float64 or float32 positions, velocities, masses; origin in the "
+        "position unit, another length unit, or omitted; window in another unit or omitted) with net angular momentum >= 1e-3 of sum m|r||v|.  Oracle on (n,u,v) = get_direction(...): unit length "
         "and mutual perpendicularity within 1e-9, n parallel to the requested normal with positive orientation, "
         "u x v = n when only the normal is given, named axes in order for letters/triples, n parallel to L = sum m "
         "(r-o) x v over |r-o| < (dx+dy)/4 (numpy, cgs) for 'top', L in span(u,v) for 'side'.  non-trivial = not "
         "axis-aligned, or a component <= 1e-10 relative, or z = 0, or x+y = 0.")
 ASSUMPTIONS = [
-    "overall lengths limited to 10^+-60 so that the squared length is representable; ratios between components are not limited",
+    "overall lengths 10^+-300 (half of the cases within 10^+-60); ratios between components are not limited; numpy float32 / "
+    "int32 / uint8 scalars only where the numbers are representable in that type",
+    "without a window the selection sphere of 'top'/'side' has half the mean extent of the positions as its radius (the "
+    "anchored mechanism in direction.py); cells within 5% of it are not generated",
     "a user VectorBasis is normalised but not orthogonalised by osyris: generated with perpendicular vectors",
     "cells within 10% of the selection sphere's radius are not generated (boundary membership is not judged)",
 ]
